@@ -1368,6 +1368,10 @@ insert_list:
         SCOPED_LOCK(waitq_lock, ((bool) waitq) * 2);
         SCOPED_LOCK(rq.current->lock);
         assert(!AtomicRunQ(rq).single());
+        // an interrupt that arrived before this sleep began (while the
+        // thread was not sleeping) belongs to no sleep: drop it, as
+        // thread_yield() does, instead of reporting it after this one
+        rq.current->error_number = 0;
         auto sw = AtomicRunQ(rq).remove_current(states::SLEEPING);
         if (waitq) {
             waitq->push_back(sw.from);
